@@ -341,6 +341,54 @@ def g_suolson():
     return {'SuOlson': (text, js)}
 
 
+@group('sdrz')
+def g_sdrz():
+    """Steady detonation reaction zone: the time-independent constants of __init__ and the algebraic state (g, p, rho, u, cs) that
+    run_tvec computes from the reaction progress - the straight-line array assignments, read with lambda as a free variable;
+    the time grid, the particle paths and the back-interpolation of _run are outside the subset"""
+    from py2coq import Interp, free_vars
+    mod = Module(os.path.join(S, 'sdrz/sdrz.py'))
+    cn = mod.classes['SteadyDetonationReactionZone']
+    meth = {st.name: st for st in cn.body if isinstance(st, ast.FunctionDef)}
+    text = HEADER % 'exactpack/solvers/sdrz/sdrz.py'
+    js = {}
+
+    def emit(nm, args, e, comment):
+        nonlocal text
+        fv = free_vars(e)
+        for v in fv:
+            if v not in args:
+                raise Unsupported('sdrz: %s has stray variable %s' % (nm, v))
+        args = [a for a in args if a in fv]
+        text += '\n' + emit_function(nm, args, e, comment=comment)
+        text += '#[global] Hint Unfold %s : epgen.\n' % nm
+        js[nm] = {'args': args, 'expr': expr_to_json(e)}
+
+    def self_assigns(fn, wanted, selfo, env):
+        interp = Interp(mod, {})
+        seen = []
+        for st in meth[fn].body:
+            if isinstance(st, ast.Assign) and len(st.targets) == 1:
+                tg = st.targets[0]
+                if isinstance(tg, ast.Attribute) and isinstance(tg.value, ast.Name) and tg.value.id == 'self' and tg.attr in wanted:
+                    selfo.attrs[tg.attr] = interp.ev(st.value, env); seen.append(tg.attr)
+                elif isinstance(tg, ast.Name) and tg.id in wanted:
+                    env[tg.id] = interp.ev(st.value, env); seen.append(tg.id)
+        missing = [w for w in wanted if w not in seen]
+        if missing:
+            raise Unsupported('sdrz.%s: no top-level assignment of %s' % (fn, missing))
+    P = ['D', 'rho_0', 'gamma']
+    selfo = Obj('', {a: ('var', a) for a in P}, frozen=True, name='self')
+    self_assigns('__init__', ['Dj', 'f', 'Pj', 'rhoj'], selfo, {'self': selfo})
+    for k in ('Dj', 'f', 'Pj', 'rhoj'):
+        emit('sdrz_' + k, P, selfo.attrs[k], 'SteadyDetonationReactionZone.__init__: self.%s' % k)
+    env = {'self': selfo, 'lamvec': ('var', 'lam')}
+    self_assigns('run_tvec', ['gvec', 'pvec', 'rhovec', 'uvec', 'csvec'], selfo, env)
+    for k in ('gvec', 'pvec', 'rhovec', 'uvec', 'csvec'):
+        emit('sdrz_' + k[:-3], ['lam'] + P, env[k], 'run_tvec: %s as a function of the reaction progress' % k)
+    return {'Sdrz': (text, js)}
+
+
 def methods_group(relpath, outname, specs):
     """specs: list of (coq prefix, class, [self attribute names], [(method, [arg names])])"""
     from gen import translate_method, nan_cond, strip_nan
